@@ -1,4 +1,5 @@
 import Sheens.Driver.Match
+import Sheens.Driver.Engine
 
 /-! `driver`: one JSON op per line in, one JSON verdict line out. -/
 
@@ -7,6 +8,8 @@ open Lean
 def dispatch (j : Json) : Json :=
   match Wire.getStr j "op" with
   | "match" => Driver.handleMatch j
+  | "walk" => Driver.handleWalk j
+  | "step" => Driver.handleStep j
   | op => Json.mkObj [("error", Json.str ("unknown op " ++ op))]
 
 partial def loop (hin : IO.FS.Stream) (hout : IO.FS.Stream) : IO Unit := do
